@@ -1231,8 +1231,9 @@ func TestVerifEndpoints(t *testing.T) {
 // Conc part of spec/DaemonEndpoints.tla: one request interleaved with the daemon's own step
 // "bp.storeDKGOutput -> dkgCallback -> AddBeaconHandler".  Two hook points make the
 // interleavings that matter reproducible: the storing goroutine is parked right after it
-// write-locked bp.state ("core.storeDKG.locked"); a request that scans the processes is parked
-// holding dd.state read-locked, before it read-locks bp.state ("core.readBeaconID.scan").
+// write-locked bp.state ("core.storeDKG.locked"); a request whose chain hash the daemon does not
+// know is parked right before it read-locks bp.state ("core.readBeaconID.scan"; on the original
+// code it held dd.state read-locked at that point - the lock-order inversion F40).
 // Then both are released.  Each scenario runs on a fresh daemon.
 
 func vdmeStackOf(all, needle string) string {
